@@ -317,6 +317,8 @@ class Interp:
         return r if len(r) < 80 else r[:77] + "..."
 
     def _identical(self, a, b) -> Optional[bool]:
+        if isinstance(a, BoundBuiltin) or isinstance(b, BoundBuiltin):
+            return a is b
         if a is None or b is None:
             if isinstance(a, Unknown) or isinstance(b, Unknown):
                 return None
@@ -346,6 +348,10 @@ class Interp:
             return False
         if isinstance(a, Obj) and isinstance(b, Obj):
             return a is b
+        if isinstance(a, (BoundBuiltin, ExtV, ClassV)) and isinstance(b, (BoundBuiltin, ExtV, ClassV)):
+            if isinstance(a, BoundBuiltin) or isinstance(b, BoundBuiltin):
+                return a is b
+            return repr_type(a) == repr_type(b)
         if type(a) is not type(b):
             return False
         return None
@@ -1256,6 +1262,10 @@ def _load(t):
 
 
 def repr_type(v):
+    if isinstance(v, BoundBuiltin):
+        for k, b in BUILTINS.items():
+            if b is v:
+                return k
     if isinstance(v, ClassV):
         return v.node.name
     if isinstance(v, ExtV):
@@ -1538,13 +1548,17 @@ def _b_str(it, args, kw):
 def _b_type(it, args, kw):
     v = args[0]
     if isinstance(v, list):
-        return ExtV("list")
+        return BUILTINS["list"]
     if isinstance(v, tuple):
-        return ExtV("tuple")
+        return BUILTINS["tuple"]
     if isinstance(v, dict):
-        return ExtV("dict")
+        return BUILTINS["dict"]
     if isinstance(v, str):
-        return ExtV("str")
+        return BUILTINS["str"]
+    if isinstance(v, bool):
+        return BUILTINS["bool"]
+    if is_num(v):
+        return BUILTINS["float"]
     if isinstance(v, (Arr, Arr2)):
         return ExtV("numpy.ndarray")
     if isinstance(v, Obj):
@@ -1778,6 +1792,22 @@ def _np_array_equal(it, args, kw):
     a, b = args
     if a is None or b is None:
         return False
+    def rows(x):
+        if isinstance(x, Arr2):
+            return [list(r.items) for r in x.rows]
+        if isinstance(x, (list, tuple)) and x and all(isinstance(r, (list, tuple, Arr)) for r in x):
+            return [list(r.items) if isinstance(r, Arr) else list(r) for r in x]
+        return None
+    ra, rb = rows(a), rows(b)
+    if ra is not None or rb is not None:
+        if ra is None:
+            ra = [] if (isinstance(a, (list, tuple)) and not a) else None
+        if rb is None:
+            rb = [] if (isinstance(b, (list, tuple)) and not b) else None
+        if ra is None or rb is None:
+            return False
+        e = it._equal(ra, rb)
+        return e if e is not None else it.decide("array_equal")
     e = it._equal(list(a.items) if isinstance(a, Arr) else a, list(b.items) if isinstance(b, Arr) else b)
     if e is None:
         return it.decide(f"array_equal({it._show(a)}, {it._show(b)})")
@@ -1851,7 +1881,17 @@ def _np_where(it, args, kw):
     return Unknown("np.where")
 
 
+def _fnc_find(it, args, kw):
+    pred, xs = args[0], args[1]
+    for x in it.iterate(xs):
+        if it.truth(it.call(pred, [x], {})):
+            return x
+    return None
+
+
 DEFAULT_EXT: Dict[str, Callable] = {
+    "fnc.find": _fnc_find,
+    "pydash.find": lambda it, a, k: _fnc_find(it, [a[1], a[0]], k),
     "numpy.zeros": _np_zeros,
     "numpy.concatenate": _np_concatenate,
     "numpy.delete": _np_delete,
